@@ -42,5 +42,7 @@ SEEDED = [
     ("C05-11", "C05-KEYS"),
     ("C05-12", "C05-ANY"),
     ("C05-13", "C05-BIN"),
+    ("C05-14", "C05-POST"),
+    ("C05-15", "C05-SIB"),
 ]
 MUTANTS = list(MUTANTS) + [_P("seed-" + sid, _os.path.join(_SEEDS, sid, "patch.diff"), rule) for sid, rule in SEEDED if _os.path.exists(_os.path.join(_SEEDS, sid, "patch.diff"))]
